@@ -3,11 +3,25 @@
 import json, os
 V = os.path.dirname(os.path.dirname(os.path.abspath(__file__)))
 TB = "Trusted: CBMC 6.11 (goto-cc front end, DFCC contract instrumentation, built-in memcpy/memset/malloc models, SAT back end), the loop-contract overlay scanner and driver in tools/verif.py, bit-precise x86-64 LP64 arithmetic model. "
-CLAIMS = {
- "C01": dict(cat="proof", tech="CBMC function contracts (DFCC) + loop contracts on the real byte_buf.c",
-   text="Unbounded deductive proof per function: every byte-buffer/cursor function under contract is checked by CBMC against a contract taken from the property (frame = only len and bytes [len,len+n) / only cursor fields and the destination; assigns conditional on the exact success condition, so a failing call has an empty write set; earlier bytes unchanged and new bytes equal the source via ghost witness indices; len <= capacity). Sizes, lengths and capacities are unconstrained 64-bit values. Callees are replaced by their contracts, loops closed by loop invariants.",
-   note=TB + "Assumed: aws_hton64 (inline asm bswap) behaves as __builtin_bswap64; allocator vtable functions obey contracts/allocator.h; backing objects are at most 2^56 bytes (CBMC object-size limit). Functions not yet under contract are listed in evidence (not_decided).", ref="§5 C01"),
-}
+DESIGN_REF = "DESIGN.md section 5 (per-property plan) and section 10 (what was built)"
+def claim_from_units(pid):
+    """level text, note and technique come from units/<PID>/units.json (explanation / assumptions / not_decided / level)."""
+    u = json.load(open(os.path.join(V, "units", pid, "units.json")))
+    if not u.get("claim", False):   # set by the coordinator once the property check has been validated
+        return None
+    modes = sorted(set((dict(u.get("defaults", {}), **x)).get("mode", "proof") for x in u["units"]))
+    cat = "proof" if u.get("level", "proof") == "proof" else "other"
+    text = u.get("explanation") or "see evidence"
+    nd = u.get("not_decided", [])
+    note = TB + "Assumed: " + "; ".join(u.get("assumptions", []) or ["see evidence"]) + (". Not decided: " + "; ".join(nd) if nd else "")
+    tech = u.get("technique") or ("CBMC function contracts (goto-instrument --dfcc) + loop contracts on the real sources; unit modes: " + ", ".join(modes))
+    return dict(cat=cat, text=text, note=note, tech=tech, ref=DESIGN_REF)
+CLAIMS = {}
+for _pid in sorted(os.listdir(os.path.join(V, "units"))) if os.path.isdir(os.path.join(V, "units")) else []:
+    if os.path.exists(os.path.join(V, "units", _pid, "units.json")):
+        c = claim_from_units(_pid)
+        if c:
+            CLAIMS[_pid] = c
 NA_REASON = {
  "C08": "quantifies over interleavings of client threads with the scheduler thread (locks, condition variable, atomics); CBMC function contracts have no thread semantics; the sequential core is covered under C07",
  "C11": "property lives in vendored cJSON.c (recursive printer/parser over unbounded trees) and libc number formatting; any contract for them would be an assumption equal to the property",
